@@ -99,7 +99,9 @@ def model_update_cases(rng, n_cases):
 def fast_vs_slow(rng, kind, nn, spec_fail, nsteps=3):
     import jax.numpy as jnp
     from jax import random as jr
-    adj = systems.chain_adjacency(4) if rng.random() < 0.5 else systems.grid_adjacency(2, 2)
+    # rings (as many bonds as sites) and open chains (fewer bonds than sites)
+    adj = rng.choice([systems.chain_adjacency(4), systems.grid_adjacency(2, 2), systems.chain_adjacency(4, periodic=False),
+                      systems.chain_adjacency(5, periodic=False)])
     u, u1 = rng.choice([2.0, 4.0, 8.0]), rng.choice([0.25, 0.5, 1.0])
     ne = rng.choice([(2, 2), (2, 1)])
     dt = rng.choice([0.01, 0.05])
